@@ -90,6 +90,7 @@ def run(ctx):
     if stop:
         run_.driver_env = {}
         run_.run_batches(kvlib.chunk(stop, 4 if thorough else 2), driver_workers=4, tlc_workers=4)
+    run_.run_retries()
     ctx.extra.update(run_.stats)
     ctx.extra["deviation_use_count"] = run_.used_count
     if idle:
